@@ -161,13 +161,16 @@ var nTextLevel = func() bool {
 	if len(os.Args) < 3 || os.Args[1] != "gen" {
 		return false
 	}
-	for _, p := range []string{"i1.", "i2.", "i3.", "l.", "c04.parse", "c04.textmatch", "c04.units", "c05.tree", "c05.url", "c05.shortcut", "re"} {
-		if strings.HasPrefix(os.Args[2], p) {
-			return true
+	// the families measured to be linear on the Lean side; every other family (also those of other properties that
+	// merely share the generators of gen.go / gen_e.go) gets the capped sizes
+	for _, p := range []string{"match", "c04.match", "c04.perm", "c04.collide", "c01.matchall", "c01.hash", "c01.real", "c02.dns", "c05.engine",
+		"c05.maskurl", "c06.", "c07.", "scale"} {
+		if os.Args[2] == p || (strings.HasSuffix(p, ".") && strings.HasPrefix(os.Args[2], p)) {
+			return false
 		}
 	}
 
-	return false
+	return true
 }()
 
 // nValueCount: a log-scale number of values of one modifier list in [lo, hi] (capped for text-level families).
